@@ -143,8 +143,14 @@ def build_harness(src, out_name, std="c++17", cxx="g++", opt="-O1", defines=(), 
         cmd += SAN
     cmd += ["-D" + d for d in defines]
     cmd += list(extra)
-    cmd += [os.path.join(HARNESS, src), "-o", out, "-pthread"]
+    # compile to a private name, then rename atomically: checks may run concurrently and share harnesses
+    tmp = "%s.tmp.%d" % (out, os.getpid())
+    cmd += [os.path.join(HARNESS, src), "-o", tmp, "-pthread"]
     rc, o, e = sh(cmd, timeout=900)
+    if rc == 0:
+        os.replace(tmp, out)
+    elif os.path.exists(tmp):
+        os.unlink(tmp)
     return rc == 0, out, (o + e)
 
 
